@@ -9,6 +9,7 @@ package main
 
 import (
 	"fmt"
+	"os"
 	"sort"
 	"sync"
 
@@ -81,12 +82,17 @@ func fsPreCancelled(r *h.Run, spec treeSpec) {
 	}
 }
 
-// entry points whose exact sequence of backend operations and check points is in the Coq model
+// entry points whose exact sequence of backend operations and check points is in the Coq model (Model.v epk)
 var modelled = map[string]string{
-	"Walk": "OpWalkAfter 0", "LsRecursive": "OpWalkAfter 0", "LsRecursiveLimits": "OpWalkAfter 0", "LsRecursiveOpened": "OpWalkAfter 0",
-	"Chmod": "OpChmodAfter", "Chown": "OpChmodAfter", "ChangeOwnership": "OpChmodAfter",
-	"ListDirTree": "OpListTreeAfter",
+	"Walk": "(EWalk 0)", "LsRecursive": "(EWalk 0)", "LsRecursiveLimits": "(EWalk 0)", "LsRecursiveOpened": "(EWalk 0)",
+	"Chmod": "EChmod", "Chown": "EChmod", "ChangeOwnership": "EChmod",
+	"ListDirTree": "EListTree",
+	"Remove": "ERemove", "RemoveWithPrivileges": "ERemove", "CleanDir": "EClean",
+	"Copy": "ECopy", "CopyBetweenFS": "ECopy", "MoveNoRename": "EMoveNoRename",
 }
+
+// entry points with a full set of after-cancellation cases (the others of the same family get a thinned set)
+var fullCases = map[string]bool{"Walk": true, "Chmod": true, "ListDirTree": true, "Remove": true, "CleanDir": true, "Copy": true, "MoveNoRename": true}
 
 func fsSweeps(r *h.Run) {
 	small := treeSpec{Dirs: 3, Files: 3, Big: 70000}
@@ -150,30 +156,26 @@ func fsSweeps(r *h.Run) {
 		}
 		r.Distinct(fmt.Sprintf("sweep|%s|%v", st.EP, j.spec))
 		stats = append(stats, st)
-		if ctor, ok := modelled[st.EP]; ok {
+		if e, ok := modelled[st.EP]; ok {
 			t := coqTree(j.spec)
-			if ctor == "OpWalkAfter 0" {
-				r.Case(fmt.Sprintf("(mkCase (OpWalkTotal 0 %s %d) false None [] [] [] KNil 0 [] [])", t, st.Total), map[string]any{"entry_point": st.EP, "tree": j.spec, "total_ops": st.Total})
-			}
-			step := 1
+			empty := "false None [] [] [] KNil 0 [] []"
+			r.Case(fmt.Sprintf("(mkCase (OpEpTotal %s %s %d) %s)", e, t, st.Total, empty), map[string]any{"entry_point": st.EP, "tree": j.spec, "total_ops": st.Total})
+			budget := 110 // correspondence cases per entry point and tree (every k is still run and judged by the oracle)
 			if j.i >= 2 {
-				step = 3
+				budget = 60
 			}
-			if (st.EP != "Walk" && st.EP != "Chmod" && st.EP != "ListDirTree") && j.i != 1 {
-				step = 7
+			if !fullCases[st.EP] {
+				budget = 25
+			}
+			step := len(st.Ks)/budget + 1
+			if step > 1 && step%2 == 0 {
+				step++ // odd stride: visits both parities of k
 			}
 			for i := 0; i < len(st.Ks); i += step {
-				r.Case(fmt.Sprintf("(mkCase (%s %s %d %d) false None [] [] [] KNil 0 [] [])", ctor, t, st.Ks[i], st.Afters[i]),
+				r.Case(fmt.Sprintf("(mkCase (OpEpAfter %s %s %d %d) %s)", e, t, st.Ks[i], st.Afters[i], empty),
 					map[string]any{"entry_point": st.EP, "tree": j.spec, "k": st.Ks[i], "ops_after_cancel": st.Afters[i]})
 			}
-			b := "(B_walk 0)"
-			switch ctor {
-			case "OpChmodAfter":
-				b = "(B_walk 1)"
-			case "OpListTreeAfter":
-				b = "B_listtree"
-			}
-			r.Case(fmt.Sprintf("(mkCase (OpBound %d %s) false None [] [] [] KNil 0 [] [])", st.MaxAfter, b), map[string]any{"entry_point": st.EP, "tree": j.spec, "max_ops_after_cancel": st.MaxAfter})
+			r.Case(fmt.Sprintf("(mkCase (OpEpBound %s %d) %s)", e, st.MaxAfter, empty), map[string]any{"entry_point": st.EP, "tree": j.spec, "max_ops_after_cancel": st.MaxAfter})
 		}
 	}
 	sort.Slice(stats, func(a, b int) bool {
@@ -254,6 +256,12 @@ func main() {
 		}
 		r.NoCases = true
 		r.Finish()
+		return
+	}
+	if name := os.Getenv("C09_DUMP"); name != "" { // debugging aid: backend operations of one uncancelled run
+		if ep := findEP(name); ep != nil {
+			dumpOps(ep, treeSpec{Dirs: 1, Files: 1, Big: 3000, Empty: 1})
+		}
 		return
 	}
 	corpus(r)
